@@ -29,6 +29,15 @@ contract(PERS, 'SymbolDBPersistor._can_restore', 'C05', types={'self': 'SymbolDB
 		'result == (self.setting.enabled and mod_in_storage(module) and src_exists(self.sources, filepath))',
 	])
 
+contract(PERS, 'SymbolDBPersistor.stored', 'C05', types={'self': 'SymbolDBPersistor', 'module': 'ModuleRef', 'return': 'bool'},
+	rewrites={'self._gen_filepath(module)': 'symbols_path(self, module)', 'module.in_storage()': 'mod_in_storage(module)', 'self.sources.exists(filepath)': 'src_exists(self.sources, filepath)',
+		'self.sources.exists(self._gen_filepath(module))': 'src_exists(self.sources, symbols_path(self, module))'},
+	raises={},
+	ensures=[
+		# Top: with caching disabled a module never counts as stored (so the preprocessors do not stop at a restore that reads nothing)
+		'implies(result, self.setting.enabled)',
+		'result == (self.setting.enabled and mod_in_storage(module) and src_exists(self.sources, symbols_path(self, module)))'])
+
 @lemma('C05', requires=['0 <= n', 'n <= len(files)'],
 	ensures=['len(hashes(l, files, n)) == n', 'all(hashes(l, files, n)[i] == src_hash(l, files[i]) for i in range(n))'], decreases='n')
 def lemma_hashes_elems(l: Loader, files: list[str], n: int):
@@ -95,7 +104,14 @@ def extra_checks(tier, seed, active_known):
 	if fails:
 		x.violation = {'what': fails[0]['what'], 'function': 'pipeline (rogw/tranp/cache, semantics/reflection/persistent.py)', 'inputs': fails[0], 'clause': 'output_warm == output_cold'}
 		x.finding_key = 'pipeline|warm-cold'
-	return [x]
+	runs2, fails2 = pipeline.cache_scenarios()
+	y = Extra(name='scripted cache histories: an edit within the same whole second as the cached file; a disabled run on a directory filled by an enabled run', kind='bounded', ok=not fails2, cases=runs2,
+		bound='2 scripted histories of 3 runs each on a two-module project (real CLI)', detail=f'{len(fails2)} failing histories', samples=[{'history': ['run (caching enabled)', 'disable caching', 'run', 'clear-cache', 'run'], 'verdict': 'equal outputs, cache directory untouched'}])
+	y.distinct = runs2
+	if fails2:
+		y.violation = {'what': fails2[0]['what'], 'function': 'pipeline (implements/syntax/lark/parser.py entry cache identity, semantics/reflection/persistent.py)', 'inputs': fails2[0], 'clause': 'output_warm == output_cold; caching disabled => no cache access'}
+		y.finding_key = 'pipeline|cache-scenarios'
+	return [x, y]
 
 
 def known_transitive(kf):
